@@ -42,13 +42,39 @@ def load_modules():
 
 
 def build_registry(mods):
+    # hooks that need every sidecar module to be loaded (e.g. sharing contracts between properties)
+    for m in mods:
+        hook = getattr(m, 'after_load', None)
+        if hook is not None:
+            hook()
+            m.after_load = None
+    # which sidecar modules build on which (python imports between them), transitively
+    import types as _types
+    by_py = {id(m.pymodule): m for m in mods if getattr(m, 'pymodule', None) is not None}
+    for m in mods:
+        m.uses = set()
+    changed = True
+    while changed:
+        changed = False
+        for m in mods:
+            py = getattr(m, 'pymodule', None)
+            if py is None:
+                continue
+            for v in list(vars(py).values()):
+                other = by_py.get(id(v)) if isinstance(v, _types.ModuleType) else None
+                if other is not None and other is not m:
+                    new = {other.prop} | other.uses
+                    if not new <= m.uses:
+                        m.uses |= new
+                        changed = True
     reg = Registry()
     reg.loops_by_key = {}
     for m in mods:
         for c in m.contracts:
             reg.add_contract(c)
         for f, mm in m.models.items():
-            reg.models[f] = mm
+            reg.scoped_models.setdefault(m.prop, {})[f] = mm
+            reg.__dict__.setdefault('module_models', {}).setdefault(m, {})[f] = mm
         for ls in m.loops:
             reg.loops[(ls.qname, ls.ordinal)] = ls
     from contracts import common
@@ -60,6 +86,8 @@ def build_registry(mods):
     reg.models[common.count_prefix] = _models.q_count_prefix
     reg.models[common.nat_of_str] = _models.q_nat_of_str
     reg.models[common.keys_subset] = _models.q_keys_subset
+    reg.models[common.prefix_fold] = _models.m_prefix_fold
+    reg.models[common.forall_keys] = _models.q_forall_keys
     reg.models[common.items_of] = _models.m_items_of
     reg.link()
     # loop specs keyed by (file, ast-qualname, ordinal)
@@ -97,7 +125,14 @@ def _task_function(qname):
         try:
             c = _REG.contracts[qname]
             _REG.current_module = getattr(c, 'module', None)
-            rep = verify.verify_function(_REG, c)
+            prof = os.environ.get('PYVC_PROFILE')
+            if prof and prof in qname:
+                import cProfile
+                pr = cProfile.Profile()
+                rep = pr.runcall(verify.verify_function, _REG, c)
+                pr.dump_stats('/tmp/pyvc-profile-%d.prof' % os.getpid())
+            else:
+                rep = verify.verify_function(_REG, c)
             result['rep'] = _summarize(c, rep)
         except BaseException:
             result['crash'] = traceback.format_exc()
@@ -168,6 +203,7 @@ def _summarize(c, rep):
         'source': rep.source, 'sha256': rep.sha, 'wall': rep.wall, 'solver_time': solver_time,
         'by_backend': by_backend, 'vcs': vcs, 'samples': samples,
         'unknown_feasibility': rep.unknown_feasibility, 'feasibility_queries': rep.feasibility_queries,
+        'slow_queries': [list(q) for q in rep.slow_queries[:20]],
         'uncovered': rep.uncovered,
         'deps_sha': rep.deps_sha,
     }
@@ -350,6 +386,9 @@ def report(prop, mine, results, missing, seed, wall, args):
             continue
         if r['kind'] == 'function':
             rep = r['rep']
+            if args.verbose:
+                for q in rep.get('slow_queries', []):
+                    print('SLOW-FEASIBILITY %s: %s' % (rep['qname'], str(q)[:600]))
             functions.append({'name': rep['qname'], 'source': rep['source'], 'sha256': rep['sha256'],
                               'paths': rep['paths'], 'outcomes': rep['outcomes'],
                               'clauses': len(rep['clauses']), 'wall_s': round(rep['wall'], 2),
@@ -510,7 +549,10 @@ def report(prop, mine, results, missing, seed, wall, args):
     evidence = {
         'property_id': prop, 'tier': _TIER, 'seed': seed, 'level': 'proof',
         'coverage': {
-            'obligations': obligations, 'discharged': discharged,
+            # obligations refuted by a LISTED known finding are reported separately (they are genuine,
+            # recorded defects of the program, not claimed as proved and not counted here)
+            'obligations': obligations - len(known_seen), 'discharged': discharged,
+            'obligations_refuted_by_listed_known_findings': len(known_seen),
             'checker_cmd': 'python3-vt -m pyvc.check %s --tier %s' % (prop, _TIER),
             'trusted_base': trusted,
             'functions_under_contract': functions,
